@@ -15,6 +15,7 @@ import (
 // Model/EnumClash.lean (resolveFix), plus the statement's own oracle on the rendered constants.
 
 var c11ClashTypes = []string{"A", "AB", "Abc", "Zed", "Zee", "Kind", "Pet", "PetStatus", "B", "KindX"}
+
 // keys of Schema.EnumValues as SanitizeEnumNames leaves them: camel-cased, so never starting with a lower-case letter
 // (two keys that differ only in the case of the first letter would collapse under the prefix; they cannot occur)
 var c11ClashNames = []string{"X", "Xy", "BC", "C", "ZedX", "ZeeX", "AbcX", "Status", "PetStatus", "A", "AB", "Zed", "Kind", "KindX", "AX", "Bx", "É", "N1", "Empty"}
